@@ -115,6 +115,7 @@ class Ctx:
     # ------------------------------------------------------------------ discharge
     def discharge(self):
         out = []
+        sampled = False
         for o in self.obls:
             r, model, dt, backend = vc.solve(o.assume + [NOT(o.goal)], self.timeout_ms, seed=self.seed)
             if r == "unknown" and self.default_hint and o.expect == "valid":
@@ -128,6 +129,13 @@ class Ctx:
             rec = {"name": f"{self.unit.name}/{o.kind}/{o.name}", "kind": o.kind, "props": list(o.props), "backend": backend,
                    "seconds": round(dt, 4), "where": o.exit.where if o.exit is not None else None,
                    "exit": (o.exit.kind + (":" + str(o.exit.payload) if o.exit.kind == "raise" else "")) if o.exit is not None else None}
+            if not sampled and o.kind in ("post", "raises", "frame", "inv") and o.exit is not None:
+                try:
+                    sv = z3.Solver(); sv.add(*(o.assume + [NOT(o.goal)]))
+                    txt = sv.to_smt2()
+                    rec["smt2_sample"] = txt if len(txt) < 6000 else txt[:3000] + "\n; ... (" + str(len(txt)) + " characters in total) ...\n" + txt[-1500:]
+                    sampled = True
+                except Exception: pass
             if o.expect == "valid":
                 if r == "unsat": rec["status"] = "discharged"
                 elif r == "sat":
